@@ -116,6 +116,27 @@ def run(cx):
     r4(cx)
     cx.rule("C12.R5", "K2", "the model snapshot kept in the node tree (and stored with the process) is taken after every in-place completion of the model (generated ids)")
     r5(cx)
+    cx.rule("C12.R6", "K4", "what the loaders restore is kept current in the store: every task / process column they consume is written by the UPDATE of that collection, not only by the INSERT made when the row was first pushed (before hooks, data or state existed)")
+    r6(cx)
+
+
+def r6(cx):
+    from rules.c10 import sqlite_updated_columns, mem_doc_keys
+    m = cx.m
+    live = {"task": "acts::scheduler::process::task::Task", "proc": "acts::scheduler::process::process::Process"}
+    for c, table in (("task", TASK_LOAD), ("proc", PROC_LOAD)):
+        upd, site = sqlite_updated_columns(m, c)
+        keys, df = mem_doc_keys(m, c)
+        ftys = m.struct_field_types(live[c])
+        for fld in sorted(table):
+            ty = ftys.get(fld)
+            # only what can change after the first insert has to be rewritten: the live cell is behind a lock / atomic
+            if ty is None or not re.search(r"RwLock|Mutex|Atomic", ty):
+                continue
+            cx.ob("C12.R6", "kept-current:%s:%s" % (c, fld), fld in upd and fld in keys,
+                  "the `%s` of a %s, a cell that changes while the process runs and that the loader restores, is rewritten by every update of its row (SQLite UPDATE: %s, memory document: %s)" % (
+                      fld, c, "yes" if fld in upd else "NO - the column keeps the value of the first insert (made when the task was pushed, before init)", "yes" if fld in keys else "NO"), site.loc)
+    cx.floor("C12.R6", 12)
 
 
 def _matches(where_set, want):
